@@ -181,7 +181,7 @@ fn main() {
         eprintln!("usage: b2 run|replay ...");
         std::process::exit(2);
     }
-    let tree = PathBuf::from(arg(&args, "--tree", "/dev/shm/fclones-sim/b2-tree"));
+    let tree = PathBuf::from(arg(&args, "--tree", "/dev/shm/fclonessim/b2tree"));
     let k: usize = arg(&args, "--scenario", "0").parse().unwrap();
     let sc = scenario(k);
     build_tree(&tree, &sc);
